@@ -22,7 +22,8 @@ for mod in backends:
     if mod[1] in sys.modules:
         backend_name = mod[0]
         backend = sys.modules[mod[1]]
-        break
+        # no break: a derived backend (libsnarkgg, zkifbellman, zkifbulletproofs) is listed after the base
+        # module it imports, and it is the derived one that is in effect
 
 if backend is None and "PYSNARK_BACKEND" in os.environ:
     for mod in backends:
